@@ -52,6 +52,9 @@ func (r *addrsRecord) flush(write ds.Write) (err error) {
 	key := addrBookBase.ChildString(b32.RawStdEncoding.EncodeToString(r.Id))
 
 	if len(r.Addrs) == 0 {
+		// a peer without addresses has no signed record either; the (possibly
+		// cached) in-memory copy must not resurrect it with later addresses.
+		r.CertifiedRecord = nil
 		if err = write.Delete(context.TODO(), key); err == nil {
 			r.dirty = false
 		}
@@ -107,6 +110,10 @@ func (r *addrsRecord) clean(now time.Time) (chgd bool) {
 	}
 
 	r.Addrs = removeExpired(r.Addrs, nowUnix)
+	if len(r.Addrs) == 0 {
+		// all addresses expired: the signed record goes with them.
+		r.CertifiedRecord = nil
+	}
 
 	return r.dirty || len(r.Addrs) != addrsLen
 }
